@@ -1,4 +1,5 @@
 #include "plan.h"
+#include <string.h>
 #include "libcall.h"
 
 namespace sim {
@@ -314,6 +315,31 @@ bool plan_from_json(const Json &j, Plan &p, std::string *err) {
 }
 
 // structural hash of everything that defines the case (uids, seed, run index, expectation excluded)
+std::string long_path(World &w, long len, const char *stem, bool make_dirs) {
+  std::string path = "/sim";
+  const size_t sl = strlen(stem);
+  auto have_dir = [&](const std::string &d) {
+    for (const FileSpec &f : w.files)
+      if (f.kind == 2 && f.path == d) return true;
+    return false;
+  };
+  // directories of 200 characters until what remains fits one component
+  while ((long)path.size() + 1 + 200 < len) {
+    path.push_back('/');
+    for (int i = 0; i < 200; i++) path.push_back(stem[(size_t)i % sl]);
+    if (make_dirs && !have_dir(path)) {
+      FileSpec d;
+      d.path = path;
+      d.kind = 2;
+      w.files.push_back(d);
+    }
+  }
+  path.push_back('/');
+  size_t i = 0;
+  while ((long)path.size() < len) path.push_back(stem[i++ % sl]);
+  return path;
+}
+
 uint64_t plan_hash(const Plan &p) {
   uint64_t h = 0xcbf29ce484222325ULL;
   auto mixi = [&](uint64_t v) { h = (h ^ v) * 0x100000001b3ULL; h ^= h >> 29; };
